@@ -140,7 +140,7 @@ def single(name, item):
     return {'blocks': [{'name': name, 'items': [list(item)]}]}
 
 
-REDUCED_GENERIC = [['skip', None], ['Since', '1.2'], ['attributes', 'my.key=val']]
+REDUCED_GENERIC = [['skip', None], ['Since', '1.2'], ['attributes', 'my.key=a=b']]
 REDUCED = {
     'fn': [['rename-to', 'foo_func'], ['rename-to', 'foo_other'], ['constructor', None], ['method', None],
            ['virtual', 'vmeth'], ['finish-func', 'foo_other'], ['set-property', 'prop-two']],
